@@ -135,7 +135,9 @@ TEXTS = {
     "C10": {
         "text": "Kernel-checked (1) over the shard expression REGENERATED from eventfilter.go (Go % = Int.tmod): for n>=2 and EVERY event ID, negative ones included, exactly one shard handles the event "
                 "(before the repair of defect F12 the full statement was proved FALSE: id=-3, n=2). (2) over the launch model (Workflow.Run transcribed over REGENERATED decisions): a step or connector with effective count n (own, else workflow default) gets exactly shards 1..n of n "
-                "for n>=2 and one un-sharded process otherwise (the connector statement failed to prove before the repair of defect F11); no process is launched twice for any configuration with one entry per status/connector/hook. "
+                "for n>=2 and one un-sharded process otherwise (the connector statement failed to prove before the repair of defect F11); no process is launched twice for any configuration with one entry per status/connector/hook; "
+                "(3) the role NAMES of all launched processes are pairwise distinct as STRINGS for every workflow name (spaces, upper case, dashes), all statuses incl. negative ones, all counts - proved by parsing role names back "
+                "(makeRole is a byte-wise map after the join; '-' comes only from '-'; decimal renderings contain no letters), given connector names distinct after normalisation and statuses shorter than 13 characters. "
                 "Ties: real shardFilter/makeRole vs model over all residues x both signs x n<=8, int64 limits, random and FNV-hashed connector IDs; pure-launch starts the real Run on a recording role scheduler for generated configurations "
                 "(own/default counts in {-1,0,1,2,3,5,8}, timeouts, connectors, hooks, retry on/off, names with spaces/dashes/upper case) and compares the awaited roles with the model and with the property's own list, calls Run twice, and rebuilds with other status display strings.",
         "note": TB,
